@@ -339,7 +339,9 @@ fn gen_invalid(rng: &mut Rng, f: &Field, inj: &mut Inject) -> Val {
         T::Struct(fs) => {
             match rng.below(3) {
                 0 => { if let Some(req) = fs.iter().position(|x| !x.nullable && !matches!(x.data_type, T::Null)) { let out: Vec<(String, Val)> = fs.iter().enumerate().filter(|(i, _)| *i != req).map(|(_, x)| (x.name.clone(), gen_val(rng, x, &mut none))).collect(); (Val::Struct(out, 0), "missing_required_field") } else { (Val::Int(IK::I32, 1), "wrong_kind") } }
-                1 => { let mut out: Vec<(String, Val)> = fs.iter().map(|x| (x.name.clone(), gen_val(rng, x, &mut none))).collect(); let d = out[0].clone(); out.push(d); (Val::Struct(out, 0), "duplicate_field") }
+                1 => { let mut out: Vec<(String, Val)> = fs.iter().map(|x| (x.name.clone(), gen_val(rng, x, &mut none))).collect(); let d = out[0].clone(); out.push(d);
+                       // the same key twice: through the struct protocol, or through the map protocol (flattened / hand-written Serialize impls)
+                       if rng.chance(1, 2) { (Val::Struct(out, 0), "duplicate_field") } else { (Val::Map(out.into_iter().map(|(k, v)| (Val::Str(k), v)).collect()), "duplicate_field") } }
                 _ => (Val::Str("not a struct".into()), "wrong_kind"),
             }
         }
